@@ -200,7 +200,7 @@ PROPS = {
     },
     "C01": {
         "level": "proof",
-        "lean_modules": ["CrabProofs.Props.C01Engine", "CrabProofs.Props.C01Prog", "CrabProofs.Props.C01XDom", "CrabProofs.Props.C01Rel"],
+        "lean_modules": ["CrabProofs.Props.C01Engine", "CrabProofs.Props.C01Prog", "CrabProofs.Props.C01XDom", "CrabProofs.Props.C01Rel", "CrabProofs.Props.C01Transformer"],
         "components": [FIX_COMPONENT] + prog_components("[C01]", 500, 6000) + prog_components("[C01]", 250, 3000, ids=(15, 17, 13)) + rprog_components("[C01]", 1200, 12000),
         "rule": "(1) iterator harness as C06: random CFGs x relations x start blocks x assumption maps x delay/descending x widening/narrowing modes; every table entry of the real iterator must contain the Kleene least solution. (2) " + PROG_RULE,
         "assumptions": ["the statement->operation mapping of intra_abs_transformer, liveness pruning and thresholds are covered by the program harness (tested), the engine and the interval domain by theorems; the Sem contract of the other shipped domains is tested (C03 history harness + program harness)",
